@@ -31,7 +31,9 @@ use serde::{Deserialize, Serialize};
 
 #[derive(Clone, PartialEq, Eq, Debug, Serialize, Deserialize)]
 /// Represents a BBS+ public key.
-pub struct BBSplusPublicKey(pub G2Projective);
+pub struct BBSplusPublicKey(
+    #[serde(deserialize_with = "crate::utils::util::bbsplus_utils::checked_serde::g2_not_identity")] pub G2Projective,
+);
 
 impl BBSplusPublicKey {
     /// The length of the coordinate in bytes.
